@@ -330,4 +330,131 @@ pub fn gen_serde(files: &BTreeMap<String, syn::File>, out: &mut String) {
         Ok(s) => writeln!(out, "Definition gen_visit_seq : list vstep :=\n  [{}].", s.join(";\n   ")).unwrap(),
         Err(e) => println!("ERROR GenSerde.v visit_seq: {}", e),
     }
+    match gen_serialize(files) {
+        Ok(s) => writeln!(out, "\n(* impl_serde.rs :: Serialize::serialize :: the body *)\nDefinition gen_serialize : list sstep :=\n  [{}].", s.join("; ")).unwrap(),
+        Err(e) => println!("ERROR GenSerde.v serialize: {}", e),
+    }
+    match gen_deserialize(files) {
+        Ok(s) => writeln!(out, "\n(* impl_serde.rs :: Deserialize::deserialize :: (deserializer method, its length argument, the visitor's fields) *)\nDefinition gen_deserialize : string * string * list string :=\n  {}.", s).unwrap(),
+        Err(e) => println!("ERROR GenSerde.v deserialize: {}", e),
+    }
+}
+
+fn find_method<'a>(file: &'a syn::File, tr: &str, name: &str) -> R<&'a syn::ImplItemFn> {
+    let mut found = None;
+    for it in &file.items {
+        if let Item::Impl(im) = it {
+            let is_tr = im.trait_.as_ref().map(|t| t.1.segments.last().unwrap().ident == tr).unwrap_or(false);
+            let for_ga = quote::ToTokens::to_token_stream(&im.self_ty).to_string().starts_with("GenericArray");
+            if !is_tr || !for_ga {
+                continue;
+            }
+            for ii in &im.items {
+                if let ImplItem::Fn(f) = ii {
+                    if f.sig.ident == name {
+                        if found.is_some() {
+                            return Err(format!("{}::{} defined more than once", tr, name));
+                        }
+                        found = Some(f);
+                    }
+                }
+            }
+        }
+    }
+    found.ok_or(format!("{}::{} for GenericArray not found", tr, name))
+}
+
+fn gen_serialize(files: &BTreeMap<String, syn::File>) -> R<Vec<String>> {
+    let file = files.get("impl_serde.rs").ok_or("impl_serde.rs missing")?;
+    let f = find_method(file, "Serialize", "serialize")?;
+    let params: Vec<String> = f.sig.inputs.iter().filter_map(|a| match a {
+        syn::FnArg::Typed(t) => pat_ident(&t.pat),
+        _ => None,
+    }).collect();
+    if params != ["serializer"] {
+        return Err(format!("parameters {:?}", params));
+    }
+    let mut out = vec![];
+    let n = f.block.stmts.len();
+    for (i, s) in f.block.stmts.iter().enumerate() {
+        match s {
+            // let mut tup = serializer.serialize_tuple(N::USIZE)?;
+            Stmt::Local(l) => {
+                let v = pat_ident(&l.pat).ok_or("let pattern")?;
+                let init = l.init.as_ref().ok_or("let without initialiser")?;
+                let t = match strip(&init.expr) {
+                    Expr::Try(t) => t,
+                    _ => return Err("serialize_tuple without `?`".into()),
+                };
+                match strip(&t.expr) {
+                    Expr::MethodCall(m) if m.method == "serialize_tuple" && m.args.len() == 1 && ident_of(&m.receiver).as_deref() == Some("serializer") => {
+                        out.push(format!("SerTuple \"{}\" {}", v, is_n_usize(&m.args[0])));
+                    }
+                    _ => return Err("a let that is not `serializer.serialize_tuple(..)?`".into()),
+                }
+            }
+            // for el in self { tup.serialize_element(el)?; }
+            Stmt::Expr(Expr::ForLoop(fl), _) => {
+                let el = pat_ident(&fl.pat).ok_or("for pattern")?;
+                let src = ident_of(&fl.expr).ok_or("for over something that is not a variable")?;
+                if fl.body.stmts.len() != 1 {
+                    return Err("loop body is not a single statement".into());
+                }
+                let Stmt::Expr(e, Some(_)) = &fl.body.stmts[0] else { return Err("loop body is not an expression statement".into()) };
+                let Expr::Try(t) = strip(e) else { return Err("serialize_element without `?`".into()) };
+                match strip(&t.expr) {
+                    Expr::MethodCall(m) if m.method == "serialize_element" && m.args.len() == 1 && ident_of(&m.args[0]).as_deref() == Some(el.as_str()) => {
+                        out.push(format!("SerForEach \"{}\" \"{}\" \"{}\"", el, src, ident_of(&m.receiver).ok_or("receiver")?));
+                    }
+                    _ => return Err("loop body is not `tup.serialize_element(el)?`".into()),
+                }
+            }
+            // tup.end()
+            Stmt::Expr(e, None) if i + 1 == n => match strip(e) {
+                Expr::MethodCall(m) if m.method == "end" && m.args.is_empty() => {
+                    out.push(format!("SerEnd \"{}\"", ident_of(&m.receiver).ok_or("receiver")?));
+                }
+                _ => return Err("the body does not end in `tup.end()`".into()),
+            },
+            _ => return Err("unsupported statement in serialize".into()),
+        }
+    }
+    Ok(out)
+}
+
+fn gen_deserialize(files: &BTreeMap<String, syn::File>) -> R<String> {
+    let file = files.get("impl_serde.rs").ok_or("impl_serde.rs missing")?;
+    let f = find_method(file, "Deserialize", "deserialize")?;
+    if f.block.stmts.len() != 2 {
+        return Err("expected `let visitor = GAVisitor {..}; deserializer.deserialize_tuple(N::USIZE, visitor)`".into());
+    }
+    let norm = |s: String| s.split_whitespace().collect::<Vec<_>>().join(" ");
+    let (vname, fields) = match &f.block.stmts[0] {
+        Stmt::Local(l) => {
+            let v = pat_ident(&l.pat).ok_or("let pattern")?;
+            let init = l.init.as_ref().ok_or("let without initialiser")?;
+            match strip(&init.expr) {
+                Expr::Struct(st) if st.path.segments.last().map(|s| s.ident == "GAVisitor").unwrap_or(false) && st.rest.is_none() => {
+                    let fields: Vec<String> = st.fields.iter().map(|fv| norm(format!("{} : {}", quote::ToTokens::to_token_stream(&fv.member), quote::ToTokens::to_token_stream(&fv.expr)))).collect();
+                    (v, fields)
+                }
+                _ => return Err("the visitor is not a GAVisitor literal".into()),
+            }
+        }
+        _ => return Err("first statement is not the visitor".into()),
+    };
+    match &f.block.stmts[1] {
+        Stmt::Expr(e, None) => match strip(e) {
+            Expr::MethodCall(m) if m.args.len() == 2 && ident_of(&m.receiver).as_deref() == Some("deserializer") && ident_of(&m.args[1]).as_deref() == Some(vname.as_str()) => {
+                Ok(format!(
+                    "(\"{}\", \"{}\", [{}])",
+                    m.method,
+                    norm(quote::ToTokens::to_token_stream(&m.args[0]).to_string()),
+                    fields.iter().map(|x| format!("\"{}\"", x)).collect::<Vec<_>>().join("; ")
+                ))
+            }
+            _ => Err("the body does not end in deserializer.<method>(len, visitor)".into()),
+        },
+        _ => Err("second statement is not the tail call".into()),
+    }
 }
